@@ -590,8 +590,7 @@ func (c *Ctx) checkUidCodec() {
 			if a.Op != token.LSS {
 				return false, false
 			}
-			ex, ok := a.X.(*ssa.Extract)
-			if !ok || ex.Index != 0 || !strings.HasSuffix(calleeFullName(ex.Tuple), ".Decode") {
+			if !isDecodeCount(a.X, 0) {
 				return false, false
 			}
 			if n, ok := core.ConstIntValue(a.Y); !ok || n != 8 {
@@ -637,6 +636,27 @@ func (c *Ctx) checkUidCodec() {
 				}
 			}
 		}
+		// or the three-way comparison of the two ids (`switch uid.Compare(u2)`), itself a direct comparison
+		if call, ok := in.(*ssa.Call); ok && len(pn.Params) == 2 && len(call.Call.Args) == 2 {
+			g := call.Call.StaticCallee()
+			x, y := core.Strip(call.Call.Args[0]), core.Strip(call.Call.Args[1])
+			p0, p1 := ssa.Value(pn.Params[0]), ssa.Value(pn.Params[1])
+			if g != nil && core.InModule(g) && len(g.Params) == 2 && ((x == p0 && y == p1) || (x == p1 && y == p0)) {
+				if b, isB := g.Signature.Results().At(0).Type().Underlying().(*types.Basic); g.Signature.Results().Len() == 1 && isB && b.Info()&types.IsInteger != 0 {
+					core.AllInstrs(g, func(in2 ssa.Instruction) {
+						if ifi, ok := in2.(*ssa.If); ok {
+							if a := core.NormCond(ifi.Cond); a.Op == token.LSS {
+								gx, gy := core.Strip(a.X), core.Strip(a.Y)
+								q0, q1 := ssa.Value(g.Params[0]), ssa.Value(g.Params[1])
+								if (gx == q0 && gy == q1) || (gx == q1 && gy == q0) {
+									hasLess = true
+								}
+							}
+						}
+					})
+				}
+			}
+		}
 	})
 	r.Check(hasLess && nonEmpty >= 1 && emptyRet >= 1, "C20.4-id-codec", fk(pn)+": orders the two ids and yields \"\" for equal/zero ids", c.P.Pos(pn.Pos()), "", "the two ids are not ordered by comparing them directly (an order derived from arithmetic on them wraps around), or a name is produced for equal/zero ids")
 	// prefix tables
@@ -658,4 +678,34 @@ func (c *Ctx) checkUidCodec() {
 	}
 	a, b := consts(g2c), consts(c2g)
 	r.Check(a["grp"] && a["chn"] && b["grp"] && b["chn"], "C20.4-id-codec", "GrpToChn/ChnToGrp use the same grp/chn prefix pair", c.P.Pos(g2c.Pos()), "", "the group/channel prefix tables disagree")
+}
+
+// isDecodeCount: v is the byte count returned by an encoding's Decode, directly or handed up by a
+// helper that returns it unchanged (`dec, count, err := decodeUnpadded(src, n)`).
+func isDecodeCount(v ssa.Value, d int) bool {
+	ex, ok := core.Strip(v).(*ssa.Extract)
+	if !ok || d > 2 {
+		return false
+	}
+	if ex.Index == 0 && strings.HasSuffix(calleeFullName(ex.Tuple), ".Decode") {
+		return true
+	}
+	call, ok := ex.Tuple.(*ssa.Call)
+	if !ok {
+		return false
+	}
+	g := call.Call.StaticCallee()
+	if g == nil || !core.InModule(g) || len(g.Blocks) == 0 {
+		return false
+	}
+	n, all := 0, true
+	core.AllInstrs(g, func(in ssa.Instruction) {
+		if ret, isRet := in.(*ssa.Return); isRet && ex.Index < len(ret.Results) {
+			n++
+			if !isDecodeCount(ret.Results[ex.Index], d+1) {
+				all = false
+			}
+		}
+	})
+	return all && n > 0
 }
